@@ -1,7 +1,7 @@
 ------------------------------ MODULE Trace_C09 ------------------------------
 (* Binding O for C09: every event is one call of a PGPy codec (argument and result as octets);  *)
 (* TLC evaluates the Wire / Packets operator on it.  One verdict per event.                      *)
-EXTENDS Packets, TLC, Json, IOUtils
+EXTENDS Subpackets, TLC, Json, IOUtils
 J == JsonDeserialize(IOEnv.TRACE_FILE)
 Events == J.events
 VARIABLE i
@@ -12,7 +12,7 @@ NewDec(e) ==        \* e.inp: octets given to the decoder, e.q: decoded quad, e.
   IF d.kind = "def" /\ d.quad = e.q /\ d.size = e.used THEN "ok" ELSE "C09.newlen"
 OldEnc(e) == IF OldFitsQ(e.q, e.lt) => e.out = OldLenEncQ(e.q, e.lt) THEN "ok" ELSE "C09.oldlen"
 OldDec(e) == IF OldLenDecQ(e.inp, e.lt) = e.q /\ e.used = OldWidth(e.lt) THEN "ok" ELSE "C09.oldlen"
-SubEnc(e) == LET d == SubLenDecAt(e.out \o <<2>>, 1) IN
+SubEncEv(e) == LET d == SubLenDecAt(e.out \o <<2>>, 1) IN
              IF d.ok /\ d.val = e.n /\ d.size = Len(e.out) THEN "ok" ELSE "C09.sublen"
 SubDec(e) == LET d == SubLenDecAt(e.inp, 1) IN
              IF d.ok /\ d.val = e.n /\ d.size = e.used THEN "ok" ELSE "C09.sublen"
@@ -39,9 +39,20 @@ RealSeq(e) ==
   ELSE IF \E k \in 1..Len(sp.pkts) : LET pk == sp.pkts[k] IN pk.fmt = "new" /\ ~pk.partial /\ pk.hl # 1 + Len(NewLenEnc(pk.bl)) THEN "C09.newlen"
   ELSE IF ~e.reparsed THEN "C09.width"
   ELSE "ok"
-Judge(e) == CASE e.k = "realseq" -> RealSeq(e) [] e.k = "newenc" -> NewEnc(e) [] e.k = "newdec" -> NewDec(e)
+\* a signature PGPy BUILT with one subpacket of a chosen length (e.len, type e.sptype) in its hashed area: the packet must be a well-formed
+\* v4 signature (both subpacket areas tile exactly: SubSplit; SigWF), the subpacket must be found with exactly that length, and its length
+\* field must decode back (SubLenDecAt is what SubSplit uses)
+RealSig(e) ==
+  LET k == PacketAt(e.pkt, 1) IN
+  IF ~k.ok \/ k.tag # 2 \/ k.next # Len(e.pkt) + 1 THEN "C09.width"
+  ELSE IF ~SigWF(k.body) THEN "C09.sublen"
+  ELSE LET hs == SubSplit(SigFields(k.body).hashedArea).sps IN
+    IF ~\E j \in 1..Len(hs) : hs[j].type = e.sptype /\ Len(hs[j].body) + 1 = e.len THEN "C09.sublen"
+    ELSE IF ~e.reparsed THEN "C09.sublen"
+    ELSE "ok"
+Judge(e) == CASE e.k = "realsig" -> RealSig(e) [] e.k = "realseq" -> RealSeq(e) [] e.k = "newenc" -> NewEnc(e) [] e.k = "newdec" -> NewDec(e)
               [] e.k = "oldenc" -> OldEnc(e) [] e.k = "olddec" -> OldDec(e)
-              [] e.k = "subenc" -> SubEnc(e) [] e.k = "subdec" -> SubDec(e)
+              [] e.k = "subenc" -> SubEncEv(e) [] e.k = "subdec" -> SubDec(e)
               [] e.k = "mpienc" -> MpiEnc(e) [] e.k = "mpidec" -> MpiDec(e)
               [] e.k = "time" -> Time(e) [] e.k = "count" -> Count(e)
               [] e.k = "partial" -> Partial(e) [] e.k = "hdr" -> Hdr(e)
